@@ -13,6 +13,7 @@
   goroutine observes a sequential execution, whose results are C01–C05.
 -/
 import ArtVerif.Gen.Effects
+import ArtVerif.Gen.Clear
 namespace ArtVerif.C16
 open ArtVerif.Gen
 
@@ -87,6 +88,12 @@ theorem only_global_is_pool : globals.all (fun g => g == "nodePools" || g == "_n
 
 /-- the assembly routines are the only functions whose body the table cannot see; both only load -/
 theorem extern_funcs_known : externFuncs = ["insertPosNode16", "searchNode16"] := by decide +kernel
+
+/-- an object handed to the shared pool is wiped BEFORE the hand-over and never touched afterwards by the
+    releasing operation (`clear()` is the statement immediately before every `Put`), so the pool never publishes an
+    object another goroutine could still see being written -/
+theorem released_nodes_wiped_before_put :
+    putSites.all (fun (_, _, clearedJustBefore, _) => clearedJustBefore) = true ∧ putSites.length > 0 := by decide +kernel
 
 /-- footprints: a write of class "local" is invisible to other goroutines; every other write is reachable only
     through the receiver or a parameter of the operation – i.e. through the tree the operation was called on or a
